@@ -7,6 +7,9 @@
 #   c15.consts                      (implementation only: side conditions of the theorems)
 #   c15.join <client bytes>         (implementation only: an rtmp player enters the fan-out set)
 #   c15.cost <kind> <batches> <n>   (implementation only, measured: cost of a write to a full queue)
+#   c15.fresh <gop> <kind> <cap> <npre> <npost>  (implementation only: a fresh player stalled from its first byte joins a
+#                                   group with a GOP cache in mid-stream; a reading twin joined at the start)
+# group / rgroup op I<kind>: the INPUT the group has (p<timeout_ms> ps pub, c customize pub)
 # rtsp kinds: rtp / wsrtp (both tracks interleaved) or rtp.<v><a> / wsrtp.<v><a>, one letter per track:
 #   n = never SETUP, u = UDP sockets, t = interleaved channel, b = both transports
 #   c15.rt <n> <size> <wto> <pace>  (implementation only, thorough tier: measured runtime part)
@@ -52,6 +55,7 @@ ASSUMPTIONS = [
     "ended); a reply of the read loop is made by that goroutine alone (the interleaving of a reply with fan-out writes of another goroutine is "
     "covered by the theorems - units are atomic - not by the harness); at most 3 datagrams per socket kind and case are synchronised (lal logs "
     "only the first three); rtsp over WebSocket: only requests are fed (an interleaved packet inside a WebSocket frame is a parse error)",
+    "relay pull as the group's input is not driven (a pull session is attached only once its upstream connection is up)",
     "cost of a write to a full queue: measured (fastest of 3 batches of 100 writes, bound 1 ms per write = about 600 x the measured 1-2 us); the proof part "
     "is c15_one_attempt (one connection write call per unit in every queue state) tied to the code by the counted Write/Writev calls",
 ]
@@ -632,6 +636,43 @@ def gen_inbound(tier, rng):
         yield Case(line(cons, ops), cls="inbound-random")
 
 
+# ps pub with timeout_ms (0 / below 1 s = no timeout), customize pub.  (A relay pull session is attached to its group only
+# once its connection is up - OnPullSucc -: it would need a live upstream server; not driven here.)
+INPUTS = ["Ip0", "Ip999", "Ip1000", "Ip5000", "Ic"]
+
+
+def gen_inputs_fresh(tier, rng):
+    thorough = tier == "thorough"
+    M = lambda k: "p9:%d:%s" % (k * 40, tok(b"\x27\x01\0\0\0" + bytes([k] * 9)))
+    P = lambda t, n=None: "p" + tok(mk_rtp(rng, t, n))
+    # the subscribers' liveness sweep runs whatever feeds the group (C15r5-1: it was skipped for a ps pub without timeout)
+    for inp in INPUTS:
+        for subs in ("f", "w", "r", "fwr"):
+            yield Case("c15.group 4 %s %s,s,%s,%s,s,%s,s,%s,s" % (subs, inp, M(0), M(1), M(2), M(3)), cls="input-sweep")
+            yield Case("c15.group 4 %s %s,%s,s,s,s" % (subs, inp, M(0)), cls="input-sweep")
+        ops = [inp]
+        for k in range(8):
+            ops += [M(k), "r0.9"]
+            if k % 2 == 1:
+                ops.append("s")
+        yield Case("c15.group 3 fwr %s healthy0" % ",".join(ops), cls="input-sweep")
+        for kinds in ("rtp.tt,wsrtp.tt", "rtp.tn,rtp.un"):
+            ops = [inp, P(0), P(0), P(0), "s", P(0), P(1), "s", P(0), "s"]
+            yield Case("c15.rgroup 1 %s %s" % (kinds, ",".join(ops)), cls="input-sweep")
+        ops = [inp]
+        for k in range(6):
+            ops += [P(0), P(1), "r0.9"]
+            if k % 2 == 1:
+                ops.append("s")
+        yield Case("c15.rgroup 2 rtp.tt,rtp.tt %s healthy0" % ",".join(ops), cls="input-sweep")
+    # a FRESH player that is stalled from its very first byte joins in mid-stream (implementation only)
+    for gop in (0, 1, 2):
+        for kind in ("rtmp", "flv", "wsflv", "ts", "wsts", "rtp", "wsrtp"):
+            for cap in ((1, 64) if not thorough else (1, 2, 4, 64, 1024)):
+                for npre in ((2, 14, 30) if not thorough else (0, 2, 5, 14, 15, 30, 60)):
+                    yield Case("c15.fresh %d %s %d %d 6" % (gop, kind, cap, npre), cls="fresh")
+
+
 def pub_op(rng, fam, kinds, big=False):
     """publish op; for families with a Writev kind the unit may be several buffers"""
     if fam == "rtmp" and rng.random() < 0.5:
@@ -705,6 +746,9 @@ def gen_cases(tier, rng):
         yield c
     # ---- inbound traffic of the subscribers
     for c in gen_inbound(tier, rng):
+        yield c
+    # ---- the group's INPUT kinds under the subscribers' sweep; fresh stalled players joining a group with a GOP cache
+    for c in gen_inputs_fresh(tier, rng):
         yield c
     # ---- seeded random schedules
     nrand = 1500 if not thorough else 12000
@@ -871,6 +915,8 @@ def oracle(c, out):
         return oracle_join(out)
     if op == "c15.cost":
         return oracle_cost(f, out)
+    if op == "c15.fresh":
+        return oracle_fresh(f, out)
     if out.startswith(("blocked", "stuck")) or "blocked@" in out:
         return (False, "the publisher side was parked waiting for a consumer: " + out)
     if out.startswith(("panic@", "crash@", "timeout")):
@@ -1142,6 +1188,78 @@ def oracle_cost(f, out):
     return (True, "")
 
 
+def fresh_msg(k):
+    """the k-th message of the c15.fresh publisher (harness c15FreshMsg): (type, timestamp, payload)"""
+    if k == 0:
+        return (9, 0, bytes([0x17, 0, 0, 0, 0, 1, 100, 0, 31, 255, 225, 0, 10, 39, 100, 0, 31, 172, 86, 128, 180, 10, 25, 1, 0, 4, 40, 238, 60, 176]))
+    if k == 1:
+        return (8, 20, bytes([0xaf, 0, 0x12, 0x10]))
+    if k % 3 == 0:
+        return (8, k * 20, bytes([0xaf, 1, 0x21, 0x10, 0x04, 0x60, 0x8c, k & 0xFF]))
+    if (k // 3) % 4 == 0 and k % 3 == 1:
+        p = bytearray([0x17, 1, 0, 0, 0, 0, 0, 0, 6, 0x65, 0x88, 0x84, 0, k & 0xFF, 0x80]) + bytes(40)
+        p[8] = len(p) - 9
+        return (9, k * 20, bytes(p))
+    return (9, k * 20, bytes([0x27, 1, 0, 0, 0, 0, 0, 0, 5, 0x41, 0x9a, 0, k & 0xFF, 0x80]))
+
+
+def oracle_fresh(f, out):
+    gop, kind, cap, npre, npost = int(f[1]), f[2], int(f[3]), int(f[4]), int(f[5])
+    if "blocked@" in out:
+        return (False, "a fresh %s player that does not read from its first byte joined a group (gop cache %d) in mid-stream: the "
+                       "publisher's next message did not return (%s) - a call that waits for that player's connection is made under the "
+                       "group mutex, the publisher and every other subscriber are parked" % (kind, gop, out))
+    kv = dict(p.split("=", 1) for p in out.split(" ") if "=" in p)
+    if kv.get("pub") != "ok" or "healthy" not in kv:
+        return (False, "unreadable output: " + vf.short(out, 120))
+    st, wire = kv["healthy"].split(";")
+    wire = tok_bytes(wire)
+    if st != "o":
+        return (False, "the reading %s twin was disconnected while a fresh player stalled" % kind)
+    msgs = [fresh_msg(k) for k in range(npre + npost)]
+    try:
+        if kind == "rtmp":
+            want = b"".join(ref_rtmp_chunks({8: 6, 9: 7}[m[0]], m[0], m[1], 1, m[2], 4096) for m in msgs)
+            ok = wire == want
+        elif kind in ("flv", "wsflv"):
+            tags = [ref_flv_tag(*m) for m in msgs]
+            want = b"H" + (FLV_HEADER + b"".join(tags) if kind == "flv" else ref_ws_frame(FLV_HEADER) + b"".join(ref_ws_frame(t) for t in tags))
+            ok = wire == want
+        else:
+            body = wire[1:] if kind in ("ts", "wsts") else wire
+            if kind in ("ts", "wsts") and wire[:1] != b"H":
+                return (False, "no HTTP response in front of the reading twin's stream")
+            frames, rest = split_stream(kind, body)
+            # the remuxed outputs are not re-derived here: whole frames, and as many as the stream must have produced
+            ok = not rest and (len(frames) >= (npre + npost) // 4 or npre + npost < 20)
+        if not ok:
+            return (False, "the reading %s twin did not receive every message while a fresh player stalled (%d bytes)" % (kind, len(wire)))
+    except ValueError as e:
+        return (False, "the reading twin's stream is not well framed: %s" % e)
+    return (True, "")
+
+
+FANOUT_FUNCS = ("broadcastByRtmpMsg", "feedRtpPacket", "feedTsPackets", "write2RtmpSubSessions", "writev2RtmpSubSessions",
+                "write2HttpflvSubSessions", "write2HttptsSubSessions", "feedWaitRtspSubSessions")
+
+
+def static_fanout_facts():
+    """source fact: inside the fan-out functions of logic.Group no call that can wait on a subscriber's connection
+    (Flush waits for its write goroutine, Close / Dispose of a connection may too) is made on a session"""
+    import re
+    path = os.path.join(os.environ.get("LAL_REPO", "/repo"), "pkg/logic/group__core_streaming.go")
+    src = open(path).read()
+    bad = []
+    for m in re.finditer(r"^func \(group \*Group\) (\w+)\(.*?^}", src, re.S | re.M):
+        if m.group(1) not in FANOUT_FUNCS:
+            continue
+        for n, ln in enumerate(m.group(0).split("\n")):
+            code = ln.split("//")[0]
+            if re.search(r"\b(session|s|sub)\.(Flush|Close|Dispose)\(", code):
+                bad.append("%s: `%s`" % (m.group(1), code.strip()))
+    return bad
+
+
 def oracle_group(f, cons):
     cap, subs = int(f[1]), f[2]
     ops = f[3].split(",") if f[3] != "-" else []
@@ -1260,7 +1378,7 @@ def shrink(ctx, c):
 
 # ------------------------------------------------------------------ pipeline: generic diff + implementation-only ops
 def run(ctx, cases, cov, violations, known_hits, notes):
-    impl_only = [c for c in cases if c.line.split(" ")[0] in ("c15.consts", "c15.rt", "c15.join", "c15.cost")]
+    impl_only = [c for c in cases if c.line.split(" ")[0] in ("c15.consts", "c15.rt", "c15.join", "c15.cost", "c15.fresh")]
     rest = [c for c in cases if c not in impl_only]
     import sys
     vf.generic_diff(sys.modules[__name__], ctx, rest, cov, violations, known_hits, notes)
@@ -1275,10 +1393,16 @@ def run(ctx, cases, cov, violations, known_hits, notes):
         path = vf.write_replay(ctx["prop"], dict(property=ctx["prop"], case=lines[0], impl=outs[0], oracle=False, why=r[1], broken=None))
         violations.append(("oracle", "side condition of the theorems fails on the working tree: " + r[1], path, False))
     # implementation-only ops judged by the oracle: the join of an rtmp player, the cost of a write to a full queue
-    jl = [c.line for c in impl_only if c.line.split(" ")[0] in ("c15.join", "c15.cost")]
+    bad = static_fanout_facts()
+    cov["static_fanout"] = bad or "no Flush / Close / Dispose of a session inside " + ", ".join(FANOUT_FUNCS)
+    if bad:
+        path = vf.write_replay(ctx["prop"], dict(property=ctx["prop"], case="static: pkg/logic/group__core_streaming.go", impl="; ".join(bad), oracle=False,
+                                                 why="a call that can wait on a subscriber's connection inside the fan-out", broken=None))
+        violations.append(("oracle", "a call that can wait on a subscriber's connection is made inside the fan-out (under the group mutex): " + "; ".join(bad), path, False))
+    jl = [c.line for c in impl_only if c.line.split(" ")[0] in ("c15.join", "c15.cost", "c15.fresh")]
     if jl:
         jo = vf.run_lines(ctx["probe"], jl, full=True, timeout=120)
-        cov["join_cost"] = [dict(case=vf.short(l, 60), observed=o) for l, o in zip(jl, jo)]
+        cov["join_cost"] = [dict(case=vf.short(l, 60), observed=vf.short(o, 100)) for l, o in zip(jl, jo)]
         for l, o in zip(jl, jo):
             r = oracle(Case(l), o)
             cov["evaluations"] += 1
